@@ -188,5 +188,5 @@ ASSUMPTIONS = ["the independent dump uses the same `evtx` crate (record decoding
 
 def main(tier):
     n = 500 if tier == "quick" else 30000
-    cap = 400 if tier == "quick" else 7200
+    cap = 400 if tier == "quick" else 1500
     return engine.run_check(PROP, "c10", tier, n, cap, "exploration", RULE, ASSUMPTIONS)
